@@ -44,6 +44,13 @@ def scenarios(tier):
                         max_states=60000 if q else 3000000,
                         note="the list of extended codes is replaced through the settings between episodes: removed "
                              "entries must stop being withheld, changed modes must apply"))
+    out.append(Scenario("c06-scripts-changed", World, dict(base, enter="M300 S1\n", exit="M400\n"),
+                        [("TRAVEL", "I1"), ("TRAVEL", "O2"), ("RAW", "M117 a"), ("SETSCRIPT", None, None),
+                         ("SETSCRIPT", "", "; nothing\n"), ("SETSCRIPT", "M300 S1\n", "M400\n"),
+                         ("SETSCRIPT", "M300 S2\n", None), ("NEWPRINT",)],
+                        max_states=60000 if q else 3000000,
+                        note="enter / exit scripts replaced or removed (None, empty, comment only) through the settings "
+                             "between episodes"))
     out.append(Scenario("c06-region-deleted", World,
                         dict(base, shrink=True, enter="M300 S1\n", exit="M400\n", maxregions=1),
                         [("TRAVEL", "I1"), ("TRAVEL", "O2"), ("TRAVEL", "I2"), ("RAW", "M117 a"), ("RAW", "M204 S500"),
